@@ -20,10 +20,20 @@ def check(prog, ctx):
     ctx.rule('C19.c', 'summary statistics: mean = sum/size, variance = sum (x-mean)^2/(size-1), standard deviation = sqrt(variance), weighted '
              'average = sum wx/sum w and its Cochran error reduces to s^2/N for equal weights; Median selects by nth_element at size/2 '
              '(and size/2-1, each read right after its own selection)', 5)
+    ctx.rule('C19.d', 'Workload_Distribution: the closed form of the returned index list (from the loop summaries) has workers+1 entries, starts '
+             'at 0, ends at tasks, is non-decreasing and its consecutive differences differ by at most one - on the complete domain '
+             '1<=workers<=128, 0<=tasks<=1024', 1)
+    ctx.rule('C19.e', 'Range(min,max,step) enumerates min, min+-step, ... strictly before max: ascending with i<max, and descending with i>max '
+             'exactly when min>max and step>0; Range(max) = Range(0,max,1)', 4)
+    ctx.rule('C19.f', 'Locate_Closest_Location: with u = upper_bound position in the sorted list the function returns 0 for u=0, size-1 for u=size, '
+             'and otherwise whichever of u-1, u is nearer to the target (either on a tie); unsorted input is rejected', 2)
     grids(prog, ctx)
     sub_list(prog, ctx, 'C19.b')
     lists(prog, ctx)
     stats(prog, ctx)
+    workload(prog, ctx)
+    int_range(prog, ctx)
+    closest(prog, ctx)
 
 
 def grids(prog, ctx):
@@ -424,3 +434,258 @@ def median(prog, ctx):
                'odd: element selected at size/2; even: mean of the elements selected at size/2-1 and size/2, each read directly after its own nth_element',
                'median selection is wrong: even branch %s, odd branch %s (each central element must be read right after the nth_element that places it; '
                'otherwise the result depends on the input order)' % (ee, eo), witness={'even': str(ee), 'odd': str(eo)})
+
+
+# ----------------------------------------------------------------------------- C19.d/e/f: partition, Range, nearest element
+def workload(prog, ctx):
+    """The index list as a closed-form term in (workers, tasks, k), from the loop summaries; the term (not the code) is then
+    evaluated on the complete domain of the property: 1<=workers<=128, 0<=tasks<=1024, 0<=k<=workers."""
+    import numpy as np
+    R = 'C19.d'
+    fn = prog.fn(L + 'Workload_Distribution')
+    sx = Symx(prog, fn)
+    wn, tn = fn.params[0]['name'], fn.params[1]['name']
+    w, t = sx.symbol(wn, fn.params[0]['ty']), sx.symbol(tn, fn.params[1]['ty'])
+    k = Symbol('k', integer=True)
+    from ..symx import strict_ranges
+    with strict_ranges():
+        return _workload(prog, ctx, fn, sx, w, t, k, R, np)
+
+
+def _workload(prog, ctx, fn, sx, w, t, k, R, np):
+    try:
+        outs = [o for o in sx.run()]
+    except Undecided as e:
+        ctx.undecided(R, 'Workload_Distribution:partition', fn, 'loop summaries outside the understood fragment: %s' % e)
+        return
+    rets = [o for o in outs if o.kind == 'return']
+    if len(rets) != len(outs) or not rets or not all(isinstance(o.value, Arr) and o.value.length is not None for o in rets):
+        ctx.undecided(R, 'Workload_Distribution:partition', fn, 'not every path returns a list with a known length')
+        return
+    mods = [{'IntDiv': lambda a, b: np.floor_divide(a, b), 'Mod': np.mod}, 'numpy']
+    paths = []
+    try:
+        for o in rets:
+            term = o.value.read((k,))
+            free = (term.free_symbols | o.cond.free_symbols | o.value.length.free_symbols) - {w, t, k}
+            if free or o.value.opaque:
+                raise Undecided('summary depends on %s' % sorted(map(str, free)))
+            paths.append((sp.lambdify((w, t), o.cond, modules=mods), sp.lambdify((w, t, k), term, modules=mods),
+                          sp.lambdify((w, t), o.value.length, modules=mods), term, o.cond))
+    except Undecided as e:
+        ctx.undecided(R, 'Workload_Distribution:partition', fn, 'no closed form for the returned list: %s' % e)
+        return
+    except Exception as e:   # lambdify of an unexpected construct
+        ctx.undecided(R, 'Workload_Distribution:partition', fn, 'closed form cannot be evaluated: %r' % (e,))
+        return
+    bad = {}
+    npairs = 0
+    T = np.arange(0, 1025, dtype=np.int64)[:, None]
+    for wv in range(1, 129):
+        K = np.arange(0, wv + 1, dtype=np.int64)[None, :]
+        sel = np.zeros(T.shape[0], dtype=np.int64)
+        A = np.zeros((T.shape[0], wv + 1), dtype=np.int64)
+        Ln = np.zeros(T.shape[0], dtype=np.int64)
+        for cf, tf, lf, term, cnd in paths:
+            c = np.broadcast_to(np.asarray(cf(np.full(T.shape[0], wv, dtype=np.int64), T[:, 0]), dtype=bool), (T.shape[0],))
+            sel += c
+            if not c.any():
+                continue
+            Wm = np.full(A.shape, wv, dtype=np.int64)
+            Tm = np.ascontiguousarray(np.broadcast_to(T, A.shape))
+            Km = np.ascontiguousarray(np.broadcast_to(K, A.shape))
+            a = np.broadcast_to(np.asarray(tf(Wm, Tm, Km), dtype=np.float64), A.shape)
+            A = np.where(c[:, None], np.rint(a).astype(np.int64), A)
+            Ln = np.where(c, np.broadcast_to(np.asarray(lf(np.full(T.shape[0], wv, dtype=np.int64), T[:, 0]), dtype=np.int64), Ln.shape), Ln)
+        npairs += T.shape[0]
+        d = np.diff(A, axis=1)
+        checks = (('exactly one path applies', sel != 1), ('length is workers+1', Ln != wv + 1), ('first index is 0', A[:, 0] != 0),
+                  ('last index is tasks', A[:, -1] != T[:, 0]), ('indices are non-decreasing', (d < 0).any(axis=1)),
+                  ('chunk sizes differ by at most one', (d.max(axis=1) - d.min(axis=1)) > 1))
+        for name, mask in checks:
+            if mask.any() and name not in bad:
+                tv = int(T[np.argmax(mask), 0])
+                bad[name] = {'workers': wv, 'tasks': tv, 'indices': [int(x) for x in A[np.argmax(mask)]][:12]}
+    forms = '; '.join('[%s] k -> %s' % (c_, t_) for _, _, _, t_, c_ in paths)
+    ctx.decide(R, 'Workload_Distribution:partition', fn, not bad,
+               'closed form of the index list satisfies all six partition clauses on all %d (workers,tasks) pairs' % npairs,
+               'the returned index list is not a balanced partition: ' + '; '.join('%s fails at %s' % (n_, v_) for n_, v_ in bad.items()),
+               witness=bad or None, form=forms[:600])
+
+
+def int_range(prog, ctx):
+    R = 'C19.e'
+    fn = prog.fn(L + 'Range', 3)
+    sx = Symx(prog, fn)
+    mn, mx, stp = (sx.symbol(p_['name'], p_['ty']) for p_ in fn.params)
+    loops = [s for s in walk_stmts(fn.body) if s['k'] in ('For', 'While')]
+    seen = {}
+    for lp in loops:
+        inst = 'Range:loop@%s' % ('asc' if 'asc' not in seen else 'x')
+        try:
+            sts = sx.states_at(fn, lp)
+            if len(sts) != 1:
+                raise Undecided('%d paths reach the loop' % len(sts))
+            st = sts[0]
+            pre = sp.And(*st.conds) if st.conds else S.true
+            if lp['k'] == 'For' and lp.get('init') is not None:
+                live, _ = sx.exec(lp['init'], [st])
+                st = live[0]
+            entry, cond, live, done, n0 = sx.loop_step(lp, st)
+            if done or len(live) != 1:
+                raise Undecided('loop body is not straight-line')
+            pbs = [c_ for c_ in calls(lp['body']) if c_.get('kind') == 'method' and c_['callee']['name'] == 'push_back']
+            if len(pbs) != 1:
+                raise Undecided('expected one push_back per iteration')
+            arg = strip_casts(pbs[0]['args'][0])
+            kid = arg.get('id') if arg.get('k') == 'Ref' else None
+            if kid is None or kid not in entry or not isinstance(entry[kid], Symbol):
+                raise Undecided('the pushed value is not the loop variable')
+            i_in = entry[kid]
+            step = sp.expand(live[0].env.get(kid) - i_in)
+            start = st.env.get(kid)
+        except Undecided as e:
+            ctx.undecided(R, 'Range:loop@line%d' % lp['l'], fn, 'enumeration loop outside the understood fragment: %s' % e, line=lp['l'])
+            continue
+        desc = pre == sp.And(sp.Gt(mn, mx), sp.Gt(stp, 0)) or pre == sp.And(sp.Gt(stp, 0), sp.Gt(mn, mx))
+        asc = pre == sp.Not(sp.And(sp.Gt(mn, mx), sp.Gt(stp, 0))) or sp.simplify(sp.Equivalent(pre, sp.Not(sp.And(sp.Gt(mn, mx), sp.Gt(stp, 0))))) == S.true
+        kind = 'descending' if desc else ('ascending' if asc else None)
+        if kind is None:
+            ctx.undecided(R, 'Range:loop@line%d' % lp['l'], fn, 'branch predicate %s not recognised' % pre, line=lp['l'])
+            continue
+        seen[kind] = seen.get(kind, 0) + 1
+        want_cond = sp.Gt(i_in, mx) if desc else sp.Lt(i_in, mx)
+        want_step = -stp if desc else stp
+        probs = []
+        if start != mn:
+            probs.append('starts at %s, not at min' % start)
+        if cond != want_cond and cond != want_cond.reversed:
+            probs.append('continues while %s, expected %s (the upper end is excluded)' % (cond, want_cond))
+        if sp.simplify(step - want_step) != 0:
+            probs.append('advances by %s per element, expected %s' % (step, want_step))
+        ctx.decide(R, 'Range:%s' % kind, fn, not probs, '%s: i = min, min%sstep, ... while i %s max; every i is appended' % (kind, '-' if desc else '+', '>' if desc else '<'),
+                   'the %s enumeration is wrong: %s' % (kind, '; '.join(probs)), line=lp['l'])
+    if seen.get('ascending', 0) != 1 or seen.get('descending', 0) != 1:
+        ctx.undecided(R, 'Range:branches', fn, 'expected one ascending and one descending enumeration, found %s' % seen)
+    else:
+        ctx.holds(R, 'Range:branches', fn, 'descending iff min>max and stepsize>0; ascending otherwise')
+    r1 = prog.fn(L + 'Range', 1)
+    sx1 = Symx(prog, r1)
+    o1 = [o for o in sx1.run()]
+    ok1 = False
+    got = None
+    if len(o1) == 1 and o1[0].kind == 'return':
+        got = o1[0].value
+        m1 = sx1.symbol(r1.params[0]['name'], r1.params[0]['ty'])
+        ok1 = isinstance(got, sp.core.function.AppliedUndef) and got.func.__name__ == L + 'Range' and tuple(got.args) == (0, m1, 1)
+    ctx.decide(R, 'Range(max)', r1, ok1, 'Range(max) = Range(0, max, 1)', 'Range(max) delegates as %s' % (got,))
+
+
+def closest(prog, ctx):
+    """Locate_Closest_Location through std::upper_bound: with u the index of the first element > target in a sorted list,
+    the nearest element is at u-1 or u; the paths of the function are evaluated on the complete abstract table
+    (size 1..4, u 0..size, |s[u-1]-t| <,=,> |s[u]-t|)."""
+    R = 'C19.f'
+    fn = prog.fn(L + 'Locate_Closest_Location')
+    sx = Symx(prog, fn)
+    try:
+        outs = sx.run()
+    except Undecided as e:
+        ctx.undecided(R, 'Locate_Closest_Location:nearest', fn, 'paths outside the understood fragment: %s' % e)
+        return
+    lst = fn.params[0]['name']
+    AU = sp.core.function.AppliedUndef
+    n_sym = Symbol('len(%s)' % lst, integer=True, nonnegative=True)
+    allf = set()
+    for o in outs:
+        allf |= o.cond.atoms(AU)
+        if o.value is not None and isinstance(o.value, sp.Basic):
+            allf |= o.value.atoms(AU)
+    ubs = [f for f in allf if f.func.__name__ in ('std::upper_bound',)]
+    if len(set(ubs)) != 1:
+        ctx.undecided(R, 'Locate_Closest_Location:nearest', fn, 'the search is not a single std::upper_bound over the whole list (%d found)' % len(set(ubs)))
+        return
+    ub = ubs[0]
+    whole = [str(a) for a in ub.args[:2]] == ['m:%s.begin()' % lst, 'm:%s.end()' % lst] or [str(a) for a in ub.args[:2]] == ['std::begin(%s)' % lst, 'std::end(%s)' % lst]
+    tgt = ub.args[2] if len(ub.args) >= 3 else None
+    if not whole or tgt is None:
+        ctx.undecided(R, 'Locate_Closest_Location:nearest', fn, 'upper_bound does not range over the whole list: %s' % (ub,))
+        return
+    U = Symbol('u_', integer=True)
+    D1, D2 = sp.symbols('d1_ d2_', real=True)
+
+    def concretise(term, n, u, d1, d2):
+        def rep(f):
+            nm = f.func.__name__
+            if nm == 'std::is_sorted':
+                return sp.Integer(1)
+            if nm == 'std::distance' and len(f.args) == 2 and f.args[1] == ub:
+                return sp.Integer(u)
+            if nm.startswith('op==') and ub in f.args:
+                other = [a for a in f.args if a != ub]
+                if other and str(other[0]) in ('m:%s.end()' % lst, 'std::end(%s)' % lst):
+                    return sp.Integer(1 if u == n else 0)
+                if other and str(other[0]) in ('m:%s.begin()' % lst, 'std::begin(%s)' % lst):
+                    return sp.Integer(1 if u == 0 else 0)
+            if nm.startswith('op!=') and ub in f.args:
+                other = [a for a in f.args if a != ub]
+                if other and str(other[0]) in ('m:%s.end()' % lst, 'std::end(%s)' % lst):
+                    return sp.Integer(0 if u == n else 1)
+            return None
+        cur = term
+        for _ in range(6):
+            fs = [f for f in cur.atoms(AU)]
+            done_ = True
+            for f in sorted(fs, key=lambda x: -len(str(x))):
+                r = rep(f)
+                if r is not None:
+                    cur = cur.subs(f, r)
+                    done_ = False
+            if done_:
+                break
+        cur = cur.subs(n_sym, n)
+        # element reads
+        for f in list(cur.atoms(AU)):
+            if f.func.__name__ == lst and len(f.args) == 1:
+                ix = sp.simplify(f.args[0])
+                if ix == u - 1:
+                    cur = cur.subs(f, tgt - d1)
+                elif ix == u:
+                    cur = cur.subs(f, tgt + d2)
+                else:
+                    raise Undecided('reads element %s, neither u-1 nor u' % ix)
+        return sp.simplify(cur)
+    bad = []
+    rows = 0
+    try:
+        for n in range(1, 5):
+            for u in range(0, n + 1):
+                rels = [(1, 2), (1, 1), (2, 1)] if 0 < u < n else [(1, 1)]
+                for d1, d2 in rels:
+                    rows += 1
+                    hits = []
+                    for o in outs:
+                        c = concretise(o.cond, n, u, d1, d2)
+                        if c == S.true:
+                            hits.append(o)
+                        elif c != S.false:
+                            raise Undecided('path condition does not evaluate on the abstract row: %s' % c)
+                    if len(hits) != 1 or hits[0].kind != 'return':
+                        bad.append(({'size': n, 'u': u, 'd1': d1, 'd2': d2}, 'no unique returning path' if len(hits) != 1 else 'exits'))
+                        continue
+                    v = concretise(hits[0].value, n, u, d1, d2)
+                    if not v.is_Integer:
+                        raise Undecided('returned index does not evaluate: %s' % v)
+                    ok = {0} if u == 0 else ({n - 1} if u == n else ({u - 1} if d1 < d2 else ({u} if d2 < d1 else {u - 1, u})))
+                    if int(v) not in ok:
+                        bad.append(({'size': n, 'u': u, 'd1': d1, 'd2': d2}, 'returns %s, nearest is %s' % (v, sorted(ok))))
+    except Undecided as e:
+        ctx.undecided(R, 'Locate_Closest_Location:nearest', fn, str(e))
+        return
+    ctx.decide(R, 'Locate_Closest_Location:nearest', fn, not bad,
+               'on all %d abstract rows (size, upper-bound position, order of the two distances) the returned index is a nearest element' % rows,
+               'the returned index is not a nearest element on %d of %d rows, e.g. %s' % (len(bad), rows, bad[:2]),
+               witness={'row': bad[0][0], 'what': bad[0][1]} if bad else None)
+    exits = [o for o in outs if o.kind == 'exit']
+    okx = len(exits) == 1 and any(f.func.__name__ == 'std::is_sorted' for f in exits[0].cond.atoms(AU))
+    ctx.decide(R, 'Locate_Closest_Location:sorted-guard', fn, okx, 'exits iff the list is not sorted', 'exit paths: %s' % [str(o.cond)[:80] for o in exits])
